@@ -1,4 +1,5 @@
 import PyhfModel.PatchSet
+import PyhfProofs.Lemmas.Dump
 import Mathlib.Data.List.Nodup
 import Mathlib.Data.List.Basic
 /-!
@@ -241,5 +242,25 @@ theorem prefix_rejects_patch_named_name :
 theorem prefix_lookup_values_succeeds :
     (build_prefix (V := Nat) 1 [{ name := "p", values := [1] }]).toOption.map (fun d => lookup d (.name "values"))
       = some (.ok 0) := by decide
+
+/-! ### the digest's input: the key-sorted dump
+
+`digest(obj) = hash(json.dumps(obj, sort_keys=True))`; `dump` models the serialisation as a token stream.  `J.WF`: atoms and keys
+are not structural tokens (they are quoted in the real text) and the keys of every object are pairwise distinct (a Python dict).
+`J.Equiv`: equal up to reordering the entries of objects at every level. -/
+
+/-- **insensitive to key order**: documents that differ only in the order of object entries have the same dump -/
+theorem canonical_dump_key_order_insensitive (x y : J) (hx : x.WF) (h : J.Equiv x y) : dump x = dump y :=
+  dump_key_order_insensitive x y hx h
+
+/-- **sensitive to every value**: two well-formed documents with the same dump are equal up to key order — changing any leaf,
+key, array length or nesting changes the dump (unique parsing of the token stream) -/
+theorem canonical_dump_sensitive (x y : J) (hx : x.WF) (hy : y.WF) (h : dump x = dump y) : J.Equiv x y :=
+  dump_sensitive x y hx hy h
+
+/-- hence, for a collision-free hash, the digest identifies the document up to key order -/
+theorem digest_eq_iff_equiv {H : Type} (hash : List String → H) (hinj : Function.Injective hash) (x y : J) (hx : x.WF) (hy : y.WF) :
+    hash (dump x) = hash (dump y) ↔ J.Equiv x y :=
+  ⟨fun h => dump_sensitive x y hx hy (hinj h), fun h => congrArg hash (dump_key_order_insensitive x y hx h)⟩
 
 end Pyhf.Props.C17
